@@ -104,7 +104,36 @@ class Table:
                 return None
             return NotImplemented
         data.hook = data_hook
-        me = Obj(CLS, {"iscsd": iscsd, "fs": X.var("fs"), "_cache": DictVal(), "_data": data, "_config": DictVal(open_=True)})
+        # the memo of lazily computed attributes: cold for the attribute being computed; whether ANOTHER attribute happens to be cached depends on
+        # the order in which the caller touched the attributes, so such a test is an undetermined (history) condition, and what is found there is
+        # that attribute's own value
+        cache = Obj("memo")
+
+        def cache_hook(kind, o, key, v, st):
+            cur = tbl._stack[-1][0] if tbl._stack else None
+            if kind == "contains":
+                if not isinstance(key, str): return Opaque("dynamic memo key")
+                if key == cur: return False
+                c_ = Cond.get(("cached", key), f"'{key}' is already cached (it was read before)")
+                return PV(c_, True, False)
+            if kind == "getitem":
+                if not isinstance(key, str): return Opaque("dynamic memo key")
+                if key == cur: return Opaque("memo read of the attribute being computed")
+                val_ = tbl.cell(key, iscsd)
+                return Opaque(f"AttributeError({key})") if val_ is ATTR_ERROR_V else val_
+            if kind == "setitem":
+                st.events.append(("memo-write", key)); return None
+            if kind == "call":
+                name_, (args_, kw_) = key, v
+                if name_ == "get" and args_ and isinstance(args_[0], str):
+                    if args_[0] == cur: return args_[1] if len(args_) > 1 else None
+                    c_ = Cond.get(("cached", args_[0]), f"'{args_[0]}' is already cached (it was read before)")
+                    val_ = tbl.cell(args_[0], iscsd)
+                    return mk_pv(c_, Opaque(f"AttributeError({args_[0]})") if val_ is ATTR_ERROR_V else val_, args_[1] if len(args_) > 1 else None)
+                return Opaque(f"memo.{name_}")
+            return NotImplemented
+        cache.hook = cache_hook
+        me = Obj(CLS, {"iscsd": iscsd, "fs": X.var("fs"), "_cache": cache, "_data": data, "_config": DictVal(open_=True)})
 
         def self_hook(kind, o, attr, v, st):
             if kind == "getattr":
@@ -258,7 +287,8 @@ def reference():
     Cx["cf_db"] = X.const(20) * mk_fn("log10", [Hxy.abs()])
     ang = mk_fn("angle", [Hxy], "real")
     Cx["cf_rad"] = ang; Cx["cf_deg"] = ang * deg
-    unw = mk_fn("unwrap", [ang], "real")
+    from .libcalls import unwrap_form
+    unw = unwrap_form(ang)
     Cx["cf_rad_unwrapped"] = unw; Cx["cf_deg_unwrapped"] = unw * deg
     Cx["GyyCx"] = g * c * YY; Cx["GyyRx"] = (one - g) * c * YY; Cx["GyySx"] = (one - g) * c * YY
     Cx["Gxy_emp_dev"] = c * sq(M2 / n)
@@ -377,6 +407,26 @@ def check_cell(ctx, T, name, iscsd, ref, rule):
     g = generic(v)
     if is_opaque(g):
         return ctx.ob(rule, construct, VIOLATED if isinstance(g, Mismatch) else UNKNOWN, g.why, where)
+    if isinstance(g, PV) and g.cond.key and g.cond.key[0] == "cached":
+        # the value is selected by what happens to be in the memo, i.e. by the order in which the caller read the attributes: every alternative
+        # must be the documented function
+        def walk(v, path):
+            v = generic(v)
+            if isinstance(v, PV) and v.cond.key and v.cond.key[0] == "cached":
+                for pol, leaf in ((True, v.hi), (False, v.lo)):
+                    r = walk(leaf, path + [v.cond.text if pol else f"not({v.cond.text})"])
+                    if r is not None: return r
+                return None
+            text = " & ".join(path)
+            if is_opaque(v) or isinstance(v, PV) or to_x(v) is None:
+                return (UNKNOWN, f"value on the branch [{text}] not recognised", None)
+            st, why = compare(to_x(v), want, prepare=prepare_env, seed=ctx.seed)
+            if st != HOLDS:
+                return (st, f"when {text} the value differs from the documented function (the result depends on the order in which attributes were read) {why}", to_x(v))
+            return None
+        r = walk(g, [])
+        if r is not None: return ctx.ob(rule, construct, r[0], r[1], where, lhs=r[2], rhs=want)
+        return ctx.holds(rule, construct, "equal to the documented function whatever is cached already", where)
     if isinstance(g, PV):
         alts = count_guard_alternatives(g)
         if alts is None: alts = feasible_branches(g, ctx.seed)
@@ -397,3 +447,43 @@ def check_cell(ctx, T, name, iscsd, ref, rule):
     if gx is None:
         return ctx.unknown(rule, construct, f"non-scalar cell value {g!r}"[:200], where)
     return ctx.compare(rule, construct, gx, want, where, prepare=prepare_env)
+
+
+def check_cells_history_independent(ctx, T=None, rule="R-attribute-independent-of-access-order"):
+    """a lazily computed attribute has ONE value: where its computation looks into the memo for other attributes (whether they were read before),
+    every alternative must give the same normal form."""
+    T = T or Table(ctx.repo)
+    where = ctx.repo.where(GETATTR, ctx.repo.get(GETATTR))
+    names = []
+    for nm in dir_names(ctx.repo) + tested_names(ctx.repo):
+        if nm not in names: names.append(nm)
+    probes = 0; bad = 0
+    for iscsd in (True, False):
+        for nm in names:
+            try: v = T.cell(nm, iscsd)
+            except Unknown: continue
+            if not isinstance(v, PV): continue
+
+            def leaves(v, path):
+                v = generic(v) if not (isinstance(v, PV) and v.cond.key and v.cond.key[0] == "cached") else v
+                if isinstance(v, PV) and v.cond.key and v.cond.key[0] == "cached":
+                    yield from leaves(v.hi, path + [v.cond.text]); yield from leaves(v.lo, path + [f"not({v.cond.text})"])
+                else:
+                    yield path, v
+            ls = list(leaves(v, []))
+            if len(ls) < 2: continue
+            probes += 1
+            c = f"{GETATTR}[{nm}|{'cross' if iscsd else 'auto'}]"
+            base_path, base = ls[-1]          # the cold branch (nothing cached)
+            verdict = HOLDS; detail = ""
+            for path, leaf in ls[:-1]:
+                if is_opaque(leaf) or isinstance(leaf, PV) or to_x(leaf) is None or to_x(base) is None:
+                    verdict, detail = UNKNOWN, f"value when {' & '.join(path)} not recognised"; continue
+                st_, why = compare(to_x(leaf), to_x(base), prepare=prepare_env, seed=ctx.seed)
+                if st_ == VIOLATED:
+                    verdict, detail = VIOLATED, f"when {' & '.join(path)} the attribute has a different value than when nothing is cached: it depends on the order in which attributes were read {why}"; break
+                if st_ != HOLDS and verdict == HOLDS: verdict, detail = UNKNOWN, f"value when {' & '.join(path)}: {why}"
+            if verdict == VIOLATED: bad += 1
+            ctx.ob(rule, c, verdict, detail or "same value whatever is cached already", where)
+    if not probes:
+        ctx.holds(rule, GETATTR, f"{len(names)} attributes x 2 modes: no computation consults the memo for another attribute", where)
